@@ -109,9 +109,13 @@ static Q smallInt(Rng& g, int lo, int hi)
 {
    return Q(g.range(lo, hi));
 }
+// C09's user-level histories keep all changed sides/bounds finite: relaxing a side of a nonbasic row to infinity runs into a
+// warm-start defect of the simplex core (recorded under C06), which is not what C09 is about
+static bool g_finiteOnly = false;
 static void randomSides(Rng& g, Q& l, Q& r)
 {
    int t = g.range(0, 5);
+   if(g_finiteOnly) t = g.range(2, 4);
    int a = g.range(-12, 12), w = g.range(0, 9);
    l = (t == 0 || t == 5) ? NINF() : Q(a);
    r = (t == 1 || t == 5) ? PINF() : (t == 2 ? Q(a) : Q(a + w));
@@ -120,6 +124,7 @@ static void randomSides(Rng& g, Q& l, Q& r)
 static void randomBounds(Rng& g, Q& l, Q& u)
 {
    int t = g.range(0, 5);
+   if(g_finiteOnly) t = g.range(2, 4);
    int a = g.range(-6, 6), w = g.range(0, 7);
    l = (t == 0 || t == 5) ? NINF() : Q(a);
    u = (t == 1 || t == 5) ? PINF() : (t == 2 ? Q(a) : Q(a + w));
@@ -329,7 +334,7 @@ static void applyOp(OpCtx& c, int op)
       if(m == 0) return applyOp(c, 0);
       c.name = "changeLhsReal(i)";
       int i = g.range(0, m - 1);
-      Q v = g.chance(0.2) ? NINF() : (isPInf(M.rhs[i]) ? Q(g.range(-12, 12)) : Q(M.rhs[i] - g.range(0, 8)));
+      Q v = (g.chance(0.2) && !g_finiteOnly) ? NINF() : (isPInf(M.rhs[i]) ? Q(g.range(-12, 12)) : Q(M.rhs[i] - g.range(0, 8)));
       sp.changeLhsReal(i, rnd(v));
       M.lhs[i] = v;
       break;
@@ -339,7 +344,7 @@ static void applyOp(OpCtx& c, int op)
       if(m == 0) return applyOp(c, 0);
       c.name = "changeRhsReal(i)";
       int i = g.range(0, m - 1);
-      Q v = g.chance(0.2) ? PINF() : (isNInf(M.lhs[i]) ? Q(g.range(-12, 12)) : Q(M.lhs[i] + g.range(0, 8)));
+      Q v = (g.chance(0.2) && !g_finiteOnly) ? PINF() : (isNInf(M.lhs[i]) ? Q(g.range(-12, 12)) : Q(M.lhs[i] + g.range(0, 8)));
       sp.changeRhsReal(i, rnd(v));
       M.rhs[i] = v;
       break;
@@ -403,7 +408,7 @@ static void applyOp(OpCtx& c, int op)
       if(n == 0) return applyOp(c, 2);
       c.name = "changeLowerReal(i)";
       int j = g.range(0, n - 1);
-      Q v = g.chance(0.2) ? NINF() : (isPInf(M.up[j]) ? Q(g.range(-6, 6)) : Q(M.up[j] - g.range(0, 6)));
+      Q v = (g.chance(0.2) && !g_finiteOnly) ? NINF() : (isPInf(M.up[j]) ? Q(g.range(-6, 6)) : Q(M.up[j] - g.range(0, 6)));
       sp.changeLowerReal(j, rnd(v));
       M.lo[j] = v;
       break;
@@ -413,7 +418,7 @@ static void applyOp(OpCtx& c, int op)
       if(n == 0) return applyOp(c, 2);
       c.name = "changeUpperReal(i)";
       int j = g.range(0, n - 1);
-      Q v = g.chance(0.2) ? PINF() : (isNInf(M.lo[j]) ? Q(g.range(-6, 6)) : Q(M.lo[j] + g.range(0, 6)));
+      Q v = (g.chance(0.2) && !g_finiteOnly) ? PINF() : (isNInf(M.lo[j]) ? Q(g.range(-6, 6)) : Q(M.lo[j] + g.range(0, 6)));
       sp.changeUpperReal(j, rnd(v));
       M.up[j] = v;
       break;
@@ -968,8 +973,11 @@ static HistRes c09Bare(const LPModel& M, int scalerId, bool persistent, bool cou
       }
    };
    std::shared_ptr<Tolerances> tol = std::make_shared<Tolerances>();
+   static SPxOut lpout;
+   lpout.setVerbosity(SPxOut::ERROR);
    SPxLPBase<double> lp;
    lp.setTolerances(tol);
+   lp.setOutstream(lpout);
    fillLP(lp, M);
    SPxLPBase<double> orig(lp);
    std::unique_ptr<SPxScaler<double>> sc;
@@ -1085,8 +1093,16 @@ static HistRes c09User(uint64_t sub, const ParamSet& cfg, bool count)
    Rng g(909, sub, 9);
    Planted P;
    LPModel M = g.chance(0.7) ? genPlantedOpt(g, P, 7, 7, false) : genArbitrary(g, 7, 7);
-   badlyScale(g, M, nullptr, g.pick(std::vector<int> {4, 10, 20}));
+   badlyScale(g, M, nullptr, g.pick(std::vector<int> {3, 6, 9}));
    if(!allExactDoubles(M)) return R;
+   g_finiteOnly = true;
+   struct Reset
+   {
+      ~Reset()
+      {
+         g_finiteOnly = false;
+      }
+   } reset_;
    SoPlex sp;
    quiet(sp);
    cfg.apply(sp);
@@ -1094,8 +1110,11 @@ static HistRes c09User(uint64_t sub, const ParamSet& cfg, bool count)
    std::string f0 = cli.tmpdir + "/c09_" + std::to_string(sub) + "_a.lp", f1 = cli.tmpdir + "/c09_" + std::to_string(sub) + "_b.lp";
    std::string f0m = cli.tmpdir + "/c09_" + std::to_string(sub) + "_a.mps", f1m = cli.tmpdir + "/c09_" + std::to_string(sub) + "_b.mps";
    sp.writeFile(f0.c_str(), nullptr, nullptr, nullptr, true);
-   sp.writeFile(f0m.c_str(), nullptr, nullptr, nullptr, true);
-   std::string b0 = fileBytes(f0), b0m = fileBytes(f0m);
+   // the MPS writer cannot write free rows (it throws; recorded under C12/C14): compare MPS bytes only when there is none
+   bool mpsOk = true;
+   for(int i = 0; i < M.m; i++) if(isNInf(M.lhs[i]) && isPInf(M.rhs[i])) mpsOk = false;
+   if(mpsOk) sp.writeFile(f0m.c_str(), nullptr, nullptr, nullptr, true);
+   std::string b0 = fileBytes(f0), b0m = mpsOk ? fileBytes(f0m) : std::string();
    int cycles = g.range(2, 14);
    for(int cy = 0; cy < cycles && R.tag.empty(); cy++)
    {
@@ -1121,10 +1140,10 @@ static HistRes c09User(uint64_t sub, const ParamSet& cfg, bool count)
       if(cy == 0)
       {
          sp.writeFile(f1.c_str(), nullptr, nullptr, nullptr, true);
-         sp.writeFile(f1m.c_str(), nullptr, nullptr, nullptr, true);
+         if(mpsOk) sp.writeFile(f1m.c_str(), nullptr, nullptr, nullptr, true);
          if(count) S.count("c09.user.files_compared");
          if(fileBytes(f1) != b0) fail("user.writeFile.lp", "LP file written after a (scaled) solve differs from the file written before");
-         if(fileBytes(f1m) != b0m) fail("user.writeFile.mps", "MPS file written after a (scaled) solve differs from the file written before");
+         if(mpsOk && fileBytes(f1m) != b0m) fail("user.writeFile.mps", "MPS file written after a (scaled) solve differs from the file written before");
       }
       // solution refers to the unscaled LP: certificate check when optimal
       if(sp.status() == SPX::OPTIMAL)
